@@ -1381,4 +1381,18 @@ def scenarios(tick=0.125):
         {"name": "a1", "sched": "aux", "order": "mid", "period": 0.0, "first": "x", "frames": [
             _fr("x", preacts=[["go", [["recurred", ">=", 2]], "y"]]),
             _fr("y", enacts=[["done", ["me"]]])]}]})))
+    # S30: one original PLAIN auxiliary listed by frames of TWO framers: while a frame of the first framer holds
+    # it, the second framer's transition into its frame is refused (tick after tick, no entry, no exit, the
+    # auxiliary is not entered again); once the first framer has left its frame the transition is taken
+    out.append(("shared-plain-aux-held-by-another-framer", _tagged({"tick": tick, "nvars": 1, "framers": [
+        {"name": "m0", "sched": "active", "order": "front", "period": 0.0, "first": "a", "frames": [
+            _fr("a", auxes=["a1"], preacts=[["go", [["recurred", ">=", 6]], "b"]]),
+            _fr("b", preacts=[["go", [["recurred", ">=", 4]], "fin"]]),
+            _fr("fin", enacts=[["rec", 950], ["bid", "stop", ["all"], None]])]},
+        {"name": "m1", "sched": "active", "order": "back", "period": 0.0, "first": "p", "frames": [
+            _fr("p", preacts=[["go", [["recurred", ">=", 2]], "q"]]),
+            _fr("q", auxes=["a1"], reacts=[["inc", 0, 1]])]},
+        {"name": "a1", "sched": "aux", "order": "mid", "period": 0.0, "first": "x", "frames": [
+            _fr("x", preacts=[["go", [["recurred", ">=", 1]], "y"]]),
+            _fr("y")]}]})))
     return out
